@@ -126,6 +126,12 @@ class ProcessWorker(Worker):
                     self._result = self._comms.parent_end.get()
                 except queue.Empty:
                     break
+                except Exception:
+                    # the result is there but cannot be read: the child was killed while sending it
+                    # or the value/exception cannot be rebuilt in this process
+                    logger.debug('Could not read the result of {}', self, exc_info=1)
+                    self._result = None
+                    break
 
             if self._result is None:
                 self._result = (False, None)
